@@ -39,5 +39,5 @@ def run(chk, ix, tier):
     rules_rerun.check_outfile_mode(chk, ix)
     # what the rerun formatter reads at the end is the scenario's FINAL status: a failed hook leaves hook_error cached (R4)
     T.t_scenario(chk, ix, ("R4",))
-    for r, n in (("B1", 1), ("B4", 1), ("Q1", 6), ("Q3", 8), ("Q4", 6), ("Q5", 3), ("L4", 6), ("L8", 3), ("L10", 3), ("Q6", 1), ("R4", 1)):
+    for r, n in (("B1", 1), ("B4", 1), ("Q1", 6), ("Q3", 8), ("Q4", 6), ("Q5", 3), ("L9", 11), ("P3", 12), ("L4", 6), ("L8", 3), ("L10", 3), ("Q6", 1), ("R4", 1)):
         chk.require_instances(r, n)
